@@ -337,12 +337,20 @@ def run(chk):
     hs, hgroups = history_groups(maxlen)
     specs = [sched_spec(n, ms, fia) for n, ms in scheds]
     reps = 20
+    bt = 4
+    ylines = []
+    if any(b[1] in ("reg_pure_current", "x_once") or b[0] in ("translator", "translator-output") for b in broken):
+        # register_hooks (or what it calls) writes module-level state, or could not be translated: a race on that state is what the search
+        # has to exhibit — more fresh interpreters, and every thread uses its converter at once
+        reps, bt = 80, 16
+        ylines = sorted({w["line"] for w in (info or {}).get("writes", []) if w.get("kind") == "WGlobal" and isinstance(w.get("line"), int)})
+        ylines = sorted(set(ylines) | {l - 1 for l in ylines} | {l + 1 for l in ylines})
     with cf.ThreadPoolExecutor(14) as ex:
         f_h = [ex.submit(real, "history", {"histories": g, "recheck": 12}) for g in hgroups]
         long_hist = [rng.choices(CFGS, k=3) for _ in range(12)]
         f_long = ex.submit(real, "history", {"histories": long_hist, "hundred": True, "recheck": 60, "churn": 48})
         f_s = [ex.submit(real, "sched", sp) for sp in specs]
-        f_st = [ex.submit(real, "stress", {"threads": 16, "battery": True, "battery_threads": 4}) for _ in range(reps)]
+        f_st = [ex.submit(real, "stress", dict({"threads": 16, "battery": True, "battery_threads": bt}, **({"yield_lines": ylines} if ylines and k_ % 2 == 0 else {}))) for k_ in range(reps)]
         hres = [f.result() for f in f_h]
         long_run = f_long.result()
         sres = [f.result() for f in f_s]
@@ -505,7 +513,7 @@ def run(chk):
                        "broken": [b[:2] for b in broken], "forced_schedules_failing": len(real_fail), "how_to_replay": how})
         explained = True
     if stress_fail and not explained:
-        chk.violation({"property": "C19", "kind": "stress", "input": {"mode": "stress", "spec": {"threads": 16, "battery": True}, "repeat": 60},
+        chk.violation({"property": "C19", "kind": "stress", "input": {"mode": "stress", "spec": dict({"threads": 16, "battery": True, "battery_threads": bt}, **({"yield_lines": ylines} if ylines else {})), "repeat": 60},
                        "expected": "16 concurrent first calls all succeed", "observed_impl": stress_fail[0], "broken": [b[:2] for b in broken],
                        "how_to_replay": how + "  (non-deterministic: repeated 60 times)"})
         explained = True
